@@ -202,7 +202,8 @@ Definition prim_objective (n : nat) (p : prim) : lin :=
 Definition prim_freeze (n : nat) (p : prim) (value : Z) : constr :=
   if is_max p then mkC [(1, Obj n)] GE value else mkC [(1, Obj n)] LE value.
 
-(* admissible option sets (C02's quantifier) *)
+(* admissible option sets (C02's quantifier; any generous / greedy cut-off is allowed: a cut-off that leaves no
+   rank to optimise simply contributes no stage) *)
 Fixpoint distinct_crits (cs : list (crit * list Z)) : bool :=
   match cs with
   | [] => true
@@ -214,8 +215,6 @@ Definition admissible (I : instance) (o : opts) : bool :=
   distinct_crits (o_crits o) &&          (* each criterion is requested at most once (one flag each) *)
   forallb (fun c =>
     match fst c with
-    | Generous => let cut := arg (snd c) 0 1 in (1 <=? cut) && ((cut <=? max_rank I) || (max_rank I =? 0))
-    | Greedy => 1 <=? arg (snd c) 0 (Z.max 1 (max_rank I))
     | MinCost | MinSqCost | MinCostLsb => forallb (fun a => 0 <=? a) (snd c)
     | _ => true
     end) (o_crits o).
